@@ -63,6 +63,8 @@ def run(tier):
         navv += D.gen_forests("nav", n, wd)
     for n in ((4, 5) if tier == "quick" else (4, 5, 6)):
         navv += D.gen_forests("altnav", n, wd)
+    for n in (4, 5):
+        navv += D.gen_forests("navcu", n, wd)       # imported units that are ordinary compile units
     badm = [v for v in allv if not v["ok"]["attr"]]
     if badm:
         vd.observe("model:find_attribute and attribute_producer disagree", {"forest": badm[0]["forest"]})
